@@ -19,7 +19,7 @@ ASSUMPTIONS = [
     'the thorough tier, a 6-code pool in the quick tier) with Location present / absent / unparsable / self-referencing',
 ]
 
-_LOC = ['http://b.example/next', None, 'http://[', 'http://a.example/']      # other, missing, unparsable, same URL (cycle)
+_LOC = ['http://b.example/next', None, 'http://[', 'http://a.example/', '', '?again', '#top', ' ']      # other, missing, unparsable, same URL (cycle), empty value, relative forms of the same URL
 
 
 def _visit(maxr, user, password, code_of, locs):
@@ -80,9 +80,11 @@ def _redirect_bound(maxr, user, password, c0, c1, c2, c3, c4, c5, l0, l1, l2, l3
 def _always_redirect(maxr, code_i, loc_i):
     """A server that redirects for ever (cycle or endless chain) is given up on after exactly maxr+1 requests."""
     code = pick([301, 302, 303, 307, 308], code_i)
-    li = pick([0, 3], loc_i)
+    li = pick([0, 3, 4, 5, 6, 7], loc_i)
     sent, perr, finished, seen = _visit(maxr, False, False, lambda k: code, [li] * (2 * maxr + 6))
     hit('gave-up')
+    if li in (4, 7):
+        return perr and sent <= maxr + 1            # an empty Location value may also be refused at once as "missing"
     return perr and sent == maxr + 1
 
 
@@ -189,7 +191,7 @@ HARNESSES = [
       funcs=['wpull/protocol/http/redirect.py:RedirectTracker.is_redirect', 'wpull/protocol/http/redirect.py:RedirectTracker.is_repeat'],
       doc='same bound with every status code a free symbolic integer 100..599'),
     H('always_redirect', '_always_redirect', 'maxr: int, code_i: int, loc_i: int',
-      pre={'quick': ['0 <= maxr <= 6 and 0 <= code_i <= 4 and 0 <= loc_i <= 1'], 'thorough': ['0 <= maxr <= 25 and 0 <= code_i <= 4 and 0 <= loc_i <= 1']},
+      pre={'quick': ['0 <= maxr <= 6 and 0 <= code_i <= 4 and 0 <= loc_i <= 5'], 'thorough': ['0 <= maxr <= 25 and 0 <= code_i <= 4 and 0 <= loc_i <= 5']},
       timeout={'quick': 200, 'thorough': 900}, samples=[(0, 0, 0), (3, 3, 1)], need=['gave-up'],
       funcs=['wpull/protocol/http/redirect.py:RedirectTracker.exceeded'],
       doc='a redirect cycle / endless chain ends with ProtocolError after exactly max_redirects+1 requests, for every limit incl. 0'),
